@@ -2244,6 +2244,38 @@ def run(chk: Check) -> None:
             chk.fail("304-incomplete", f"frozen response, If-None-Match with its own etag answered {rr.status_code}",
                      {"data": data.hex()})
         chk.case(("freeze", data))
+    # generate_etag is a function of the WHOLE representation: equal-length bodies differing in one byte, wherever it is
+    MiB = 2 ** 20
+    for L in (1, 100, MiB - 1, MiB, MiB + 1, 3 * MiB + 7):
+        a = bytes(L)
+        ea = whttp.generate_etag(a)
+        for pos in sorted({0, 1, L // 2, MiB - 1, MiB, MiB + 1, L - 1}):
+            if not 0 <= pos < L:
+                continue
+            bb = bytearray(a)
+            bb[pos] = 1
+            b = bytes(bb)
+            inp = {"via": "generate_etag", "length": L, "differs_at": pos}
+            if whttp.generate_etag(b) == ea:
+                chk.fail("etag-not-of-whole-body", f"generate_etag gives the same tag to two bodies of {L} bytes that differ at byte "
+                                                   f"{pos}", inp)
+            if L >= MiB - 1 and pos not in (0, L - 1, MiB):
+                chk.case(("etag-whole", L, pos))
+                continue                                   # the full round trip below only on a few of the large ones
+            rr = _R2(b)
+            rr.add_etag()
+            rr.make_conditional(_EB2(headers=[("If-None-Match", whttp.quote_etag(ea))]).get_environ())
+            if rr.status_code != 200:
+                chk.fail("etag-not-of-whole-body", f"a body of {L} bytes that differs at byte {pos} from the client's copy is "
+                                                   f"answered {rr.status_code} to If-None-Match with the old etag", inp)
+            try:
+                mod = whttp.is_resource_modified({"HTTP_IF_NONE_MATCH": whttp.quote_etag(ea)}, data=b)
+            except Exception as ex:  # noqa: BLE001
+                mod = repr(ex)
+            if mod is not True:
+                chk.fail("etag-not-of-whole-body", f"is_resource_modified(data=...) says {mod} for a body of {L} bytes that differs "
+                                                   f"at byte {pos}", inp)
+            chk.case(("etag-whole", L, pos))
     # get_wsgi_headers: which header survives which status
     from werkzeug.wrappers import Response as _Resp
     from werkzeug.test import EnvironBuilder as _EB
